@@ -349,6 +349,29 @@ fn run_history(reg: Reg, front: Front, abp: bool, syms: &[Sym], rng: &mut Prng, 
         let data = rng.bytes_below(12);
         let port = rng.range(1, 223) as u8;
         let mut listen: Option<Vec<Vec<u8>>> = None;
+        if front == Front::Nb {
+            // the application misbehaves too: calls in the middle of a transaction, events when idle
+            if rng.chance(1, 3) {
+                for _ in 0..rng.range(1, 3) {
+                    let k = match rng.below(5) {
+                        0 => Intrusion::Send,
+                        1 => Intrusion::SendConfirmed,
+                        2 => Intrusion::Join,
+                        3 => Intrusion::StrayRx(rng.bytes_below(40)),
+                        _ => Intrusion::StrayNothing,
+                    };
+                    script.intrude.push((rng.range(1, 7) as u32, k));
+                }
+                col.event("nb_intrusions");
+            }
+            if rng.chance(1, 8) {
+                col.event("nb_idle_pokes");
+                if let Err(t) = w.dev.poke_idle(rng.bytes_below(30)) {
+                    col.violation(&format!("C04|panic|idle-event|{}", short_loc(&t.loc)), "an event delivered while no transaction is running panicked the device", json!({"msg": t.msg, "loc": t.loc, "trace": trace}));
+                    return;
+                }
+            }
+        }
         match s {
             Sym::SendU | Sym::Silent => action = Some(Action::Send { data: &data, port, confirmed: false }),
             Sym::SendC => action = Some(Action::Send { data: &data, port, confirmed: true }),
@@ -427,6 +450,10 @@ fn run_history(reg: Reg, front: Front, abp: bool, syms: &[Sym], rng: &mut Prng, 
         } else {
             None
         };
+        for n in w.dev.window_notes.iter().filter(|n| n.starts_with("intr@")) {
+            let kind: String = n.splitn(2, ':').nth(1).unwrap_or("").chars().filter(|c| !c.is_ascii_digit()).take(60).collect();
+            col.event(&format!("intrusion:{}", kind));
+        }
         col.event("calls_returned");
         col.state(fnv64(format!("{:?}", w.dev.snapshot()).as_bytes()));
         trace.push(format!("{}->{}", s.short(), resp.as_ref().map(|r| r.kind()).unwrap_or("-")));
